@@ -1,5 +1,6 @@
 import Mochi.Model.Broker
 import Mochi.Lemmas.AckRes
+import Mochi.Lemmas.BrokerAnswers
 /-!
 # C07 — Every request that requires a response gets one
 
@@ -98,5 +99,91 @@ theorem unsub_fold_len (s : Server) (i : Nat) (inUse : Bool) (cid : Str) (filter
     obtain ⟨s0, rcs0⟩ := acc
     simp only []
     split <;> simp <;> omega
+
+end Mochi.Broker
+
+/-! ## Operation level: `step s (.recv conn pk)` answers on the same connection, or closes it
+
+`R07.Live s conn i`: client object `i` is the one registered on connection `conn`, open, not stopped, not inline, its
+peer not gone.  `R07.Answered conn r X`: `wrote conn X ∈ r.2 ∨ closed conn ∈ r.2`.
+(Lemmas: `Mochi/Lemmas/BrokerAnswers.lean`.) -/
+namespace Mochi.Broker
+open Mochi.Topics R07
+
+/-- **PINGREQ → PINGRESP**, first thing the op writes. -/
+theorem C07_pingreq_answered (s : Server) (conn i : Nat) (L : Live s conn i) :
+    ∃ rest, (step s (.recv conn .pingreq)).2 = .wrote conn .pingresp :: rest := by
+  obtain ⟨rest, h⟩ := step_prefix L .pingreq
+  rw [handler_pingreq L] at h
+  exact ⟨rest, h⟩
+
+/-- **PUBREL → PUBCOMP with the same identifier**: reason 0x92 when no record exists under the identifier, reason 0
+    when a record exists and the PUBREL carries a defined success code.  Known finding F07b (restriction `hrc`): a
+    PUBREL with a failure / undefined reason code for a KNOWN identifier deletes the record and is not answered
+    (server.go `processPubrel`: `if pk.ReasonCode >= ErrUnspecifiedError.Code || !pk.ReasonCodeValid() { … return nil }`)
+    — counterexample `C07_pubrel_failure_code_unanswered`. -/
+theorem C07_pubrel_answered_partial (s : Server) (conn i id rc : Nat) (L : Live s conn i)
+    (hrc : (flGet (getObj s i) id).isSome = true → rc < 0x80 ∧ reasonValid 6 rc = true) :
+    ∃ rest, (step s (.recv conn (.pubrel id rc))).2 =
+      .wrote conn (.ack (getObj s i).ver 7 id (if (flGet (getObj s i) id).isNone then 0x92 else 0)) :: rest := by
+  obtain ⟨rest, h⟩ := step_prefix L (.pubrel id rc)
+  have ho := (processPubrel_out L id rc).2
+  refine ⟨rest, ?_⟩
+  rw [h]
+  show (processPubrel s i id rc).2.1 ++ rest = _
+  rw [ho]
+  by_cases h1 : (flGet (getObj s i) id).isNone = true
+  · rw [if_pos h1, if_pos h1]; rfl
+  · rw [if_neg h1, if_neg h1]
+    have hs : (flGet (getObj s i) id).isSome = true := by
+      cases hg : flGet (getObj s i) id with
+      | none => rw [hg] at h1; exact absurd rfl h1
+      | some _ => rfl
+    obtain ⟨a, b⟩ := hrc hs
+    have : (decide (rc ≥ 0x80) || !reasonValid 6 rc) = false := by
+      rw [b]; simp; omega
+    rw [this]; rfl
+
+/-- **PUBREC → PUBREL with the same identifier**: reason 0x92 when no record exists under the identifier (the id is
+    unknown: the broker still answers), reason 0 when a record exists and the PUBREC carries a defined success code.
+    A PUBREC with a failure / undefined reason code for a known identifier ends the exchange: the record is deleted
+    and NOTHING is written (MQTT 5 §4.3.3: correct — a failed PUBREC is not followed by PUBREL); counterexample
+    `C07_pubrec_failure_code_unanswered`. -/
+theorem C07_pubrec_answered_partial (s : Server) (conn i id rc : Nat) (L : Live s conn i)
+    (hrc : (flGet (getObj s i) id).isSome = true → rc < 0x80 ∧ reasonValid 5 rc = true) :
+    ∃ rest, (step s (.recv conn (.pubrec id rc))).2 =
+      .wrote conn (.ack (getObj s i).ver 6 id (if (flGet (getObj s i) id).isNone then 0x92 else 0)) :: rest := by
+  obtain ⟨rest, h⟩ := step_prefix L (.pubrec id rc)
+  have ho := (processPubrec_out L id rc).2
+  refine ⟨rest, ?_⟩
+  rw [h]
+  show (processPubrec s i id rc).2.1 ++ rest = _
+  rw [ho]
+  by_cases h1 : (flGet (getObj s i) id).isNone = true
+  · rw [if_pos h1, if_pos h1]; rfl
+  · rw [if_neg h1, if_neg h1]
+    have hs : (flGet (getObj s i) id).isSome = true := by
+      cases hg : flGet (getObj s i) id with
+      | none => rw [hg] at h1; exact absurd rfl h1
+      | some _ => rfl
+    obtain ⟨a, b⟩ := hrc hs
+    have : (decide (rc ≥ 0x80) || !reasonValid 5 rc) = false := by
+      rw [b]; simp; omega
+    rw [this]; rfl
+
+/-- PUBREL / PUBREC for an UNKNOWN identifier are always answered (no restriction) -/
+theorem C07_pubrel_unknown_answered (s : Server) (conn i id rc : Nat) (L : Live s conn i)
+    (hk : flGet (getObj s i) id = none) :
+    ∃ rest, (step s (.recv conn (.pubrel id rc))).2 = .wrote conn (.ack (getObj s i).ver 7 id 0x92) :: rest := by
+  have := C07_pubrel_answered_partial s conn i id rc L (by rw [hk]; intro h; cases h)
+  rw [hk] at this
+  exact this
+
+theorem C07_pubrec_unknown_answered (s : Server) (conn i id rc : Nat) (L : Live s conn i)
+    (hk : flGet (getObj s i) id = none) :
+    ∃ rest, (step s (.recv conn (.pubrec id rc))).2 = .wrote conn (.ack (getObj s i).ver 6 id 0x92) :: rest := by
+  have := C07_pubrec_answered_partial s conn i id rc L (by rw [hk]; intro h; cases h)
+  rw [hk] at this
+  exact this
 
 end Mochi.Broker
